@@ -11,6 +11,25 @@ struct Rec {
 };
 using LR = xenium::left_right<Rec>;
 
+// An update functor with ref-qualified call operators, passed as a temporary: the library invokes the functor once
+// per instance; both invocations have to apply the same update ("every update is applied exactly once to each of the
+// two instances"), so it must not treat the functor as an expiring value before the last call.
+struct Inc {
+  int64_t id;
+  uint64_t delta = 1;
+  void apply(Rec& r, uint64_t d) {
+    note(OP_APPLY, id, (int64_t)(reinterpret_cast<uintptr_t>(&r) & 0xffffff), (int64_t)d);
+    r.a += d;
+    r.b += d;
+    r.c += d;
+  }
+  void operator()(Rec& r) & { apply(r, delta); }
+  void operator()(Rec& r) && {
+    apply(r, delta);
+    delta = 0; // an rvalue call may consume the functor
+  }
+};
+
 struct CModel {
   using State = int64_t;
   bool step(State& s, const OpRec& o) const {
@@ -55,12 +74,15 @@ public:
     if (op.kind == OP_UPDATE) {
       op_begin(OP_UPDATE, op.a, 0, 0, 0);
       int64_t id = op.a;
-      lr->update([id](Rec& r) {
-        note(OP_APPLY, id, (int64_t)(reinterpret_cast<uintptr_t>(&r) & 0xffffff));
-        r.a++;
-        r.b++;
-        r.c++;
-      });
+      if (id & 1)
+        lr->update(Inc{id});
+      else
+        lr->update([id](Rec& r) {
+          note(OP_APPLY, id, (int64_t)(reinterpret_cast<uintptr_t>(&r) & 0xffffff), 1);
+          r.a++;
+          r.b++;
+          r.c++;
+        });
       op_end(1);
     } else {
       op_begin(OP_READ, 0, 0, 0, OPF_LOCKFREE);
@@ -90,6 +112,7 @@ public:
           if (k < 0) return c.fail("foreign-instance", "update functor ran on a third instance");
           inst_addr[k] = o.b;
           order[k].push_back(o.a);
+          if (o.c != 1) return c.fail("update-differs", "update %ld was applied to one of the instances with a consumed (moved-from) functor", (long)o.a);
         }
         continue;
       }
